@@ -17,8 +17,9 @@
    The premise matters: on a padded state (StripedSequence::new on a hand-filled matrix whose
    cells past the end hold ordinary symbols) the cells of index >= max_index are scores of
    windows of those symbols (C01_score_cells_padded, C01_score_index_padded_refuted): the clause
-   is not promised there, only the first sentence of C07 (C07_max_spec .. on whatever the cells
-   are) -- see C07_padding_needs_wildcard_padding below. *)
+   is not promised there, only the first sentence of C07 (on whatever the cells are) -- see
+   C07_padding_needs_wildcard_padding (witness) and C07_first_sentence_padded (the first sentence
+   composed with C01 on every padded state) below. *)
 From Coq Require Import List Arith Bool Lia ZArith NArith.
 From Flocq Require Import BinarySingleNaN.
 From LMBase Require Import Res ListX IEEE.
@@ -267,4 +268,61 @@ Proof.
                         (seq 0 32) = true) by (vm_compute; reflexivity).
     rewrite forallb_forall in H. apply H. apply in_seq. lia.
   - vm_compute. reflexivity.
+Qed.
+
+(* ---------- hand-filled matrices (StripedSequence::new): the FIRST sentence of C07, composed with C01 ----------
+   Any padded state (the cells of linear index >= L hold the symbols [pad], whatever they are; rows >= ceil(L/32)),
+   configured; any K-column matrix; no NaN / +inf partial sum over sequence ++ padding.  Every scoring backend
+   returns ONE matrix whose cell i is the defined score of position i of s ++ pad (so the cells past max_index are
+   scores of windows of padding symbols, not -inf), and on THAT matrix every arm's maximum / arg-maximum /
+   threshold meets its specification: the largest cell, a cell holding it, exactly the cells >= t.  Nothing is
+   said about max_index: the reported position may be a padding position (C07_padding_needs_wildcard_padding). *)
+Theorem C07_first_sentence_padded :
+  forall (K : nat) (pssm : list (list F32.t)) (pads : nat -> list F32.t) (s pad : list nat) (q : sseq)
+         (ar : arm) (a : MM.arm) (t : F32.t),
+    mat_wf 32 K (sq_mat q) -> pssm_wf K pssm ->
+    sq_len q = length s -> Striped 32 (K - 1) (s ++ pad) (full_len 32 q) -> length (s ++ pad) = pad_R q * 32 ->
+    1 <= length pssm -> length pssm - 1 <= sq_wrap q -> length pssm <= length s ->
+    (Z.of_nat (length pssm) <= 2 ^ 23)%Z ->
+    (forall i, i < pad_R q * 32 ->
+       MM.terms_ok F32.add F32.zero (K - 1) F32.zero MM.f32_okv pssm (s ++ pad) i = true) ->
+    exists sc,
+      generic_score F32.add F32.zero 32 pssm q = Ok sc /\
+      score_with (avx2_rows_into F32.add F32.zero avx2_permute_consts avx2_gather_consts K pssm pads) q = Ok sc /\
+      score_with (sse2_rows_into F32.add F32.zero sse2_consts 32 pssm) q = Ok sc /\
+      score_with (dispatch_rows_into F32.add F32.zero dispatch_score_f32 avx2_permute_consts
+                                     avx2_gather_consts sse2_consts K pssm pads ar) q = Ok sc /\
+      sc_max sc = length s + 1 - length pssm /\ length (sc_mat sc) = pad_R q /\
+      (forall i, i < pad_R q * 32 ->
+         MM.index_usize (sc_mat sc) i = Ok (score_def F32.add F32.zero (K - 1) pssm (s ++ pad) i)) /\
+      (exists o, MM.dispatch_max_f32 F32.le F32.max_x86 F32.max a (sc_mat sc) = Ok o /\ MP.max_spec F32.le (sc_mat sc) o) /\
+      (MT.rows_fit32 (sc_mat sc) -> MT.index_fits32 (N.of_nat (sc_max sc)) ->
+       exists o, MM.dispatch_argmax_f32 F32.le F32.lt F32.ninf a (N.of_nat (sc_max sc)) (sc_mat sc) = Ok o /\
+                 MP.argmax_spec F32.le 32 (sc_mat sc) o) /\
+      MP.threshold_spec F32.le (sc_mat sc) t (MM.dispatch_threshold F32.le a (sc_mat sc) t).
+Proof.
+  intros K pssm pads s pad q ar a t Hm Hp Hlen Hst Hfill HM Hwrap HL HM23 Hok.
+  destruct (C01_score_cells_padded F32.t F32.add F32.zero 32 K pssm s pad q ltac:(lia) Hm Hp Hlen Hst Hfill HM Hwrap HL)
+    as (sc & Eg & Hrows & Hmax & Hrl & Hcell & _ & _).
+  assert (Hpad : Padded 32 (K - 1) s q) by (split; [exact Hlen|exists pad; split; assumption]).
+  destruct (C01_every_backend_padded K pssm pads s q ar Hm Hp Hpad HM Hwrap HM23)
+    as (sc' & vals & Eg' & Ea & Es & Ed & _).
+  rewrite Eg in Eg'. inversion Eg'; subst sc'. clear Eg'.
+  exists sc. do 4 (split; [assumption|]). split; [exact Hmax|]. split; [exact Hrows|].
+  assert (Hwf : MP.wf 32 (sc_mat sc)) by (apply wf_of_rows; intros r Hr; apply Hrl; lia).
+  assert (Hidx : forall i, i < length (sc_mat sc) * 32 ->
+                   MM.index_usize (sc_mat sc) i = Ok (MM.score_def F32.add F32.zero (K - 1) F32.zero pssm (s ++ pad) i)).
+  { apply (MT.cells_from_C01_shape F32.add F32.zero 32 K (sc_mat sc) pssm (s ++ pad) Hwf).
+    intros r c Hr Hc. rewrite Hrows in Hr |- *. rewrite (Hcell r c Hr Hc).
+    apply (score_def_fold F32.add F32.zero K pssm (s ++ pad)). }
+  assert (Hgood : MP.all_good MI.f32_good (sc_mat sc)).
+  { unfold MP.all_good. apply Forall_forall. intros x Hx.
+    destruct (MT.in_cells_index 32 (sc_mat sc) x Hwf Hx) as (i & Hi & Ei).
+    rewrite (Hidx i Hi) in Ei. inversion Ei; subst x. apply f32_okv_good.
+    apply (prefix_ok_fold F32.add MM.f32_okv). apply Hok. rewrite <- Hrows. exact Hi. }
+  split.
+  - intros i Hi. rewrite <- Hrows in Hi. rewrite (Hidx i Hi). f_equal. apply score_def_maxi_score.
+  - destruct (MC.C07_dispatch_f32 F32.t MI.f32_good F32.le F32.lt F32.max_x86 F32.max F32.ninf MT.f32_order_facts
+                a (N.of_nat (sc_max sc)) (sc_mat sc) t Hwf Hgood) as (Ham & _ & Hmx & Hth).
+    split; [exact Hmx|]. split; [exact Ham|exact Hth].
 Qed.
